@@ -36,7 +36,9 @@ DIMS = {
     'prange': [[1e6, 1e-1], [1e5, 1e1], [1e7, 1e-4]],
     'planet': [[1.0, 1.0], [0.5, 0.1], [1.7, 3.0]],
     'rstar': [1.0, 0.3],
-    'T': [['iso', 1000.0], ['dec'], ['inc'], ['nonmono'], ['outside']],
+    # the last one: the deepest layers are hotter than the collision-induced-absorption tables reach (no CIA opacity
+    # there, by the documented rule for CIA objects), the layers above are inside
+    'T': [['iso', 1000.0], ['dec'], ['inc'], ['nonmono'], ['outside'], ['array', [800.0, 2000.0, 3700.0, 4200.0]]],
     # the last two: exactly absent in the lower layers and present aloft; present below and aloft with a gap between
     'abund': [['const', 1e-4], ['array', [1e-3, 1e-6]], ['const', 0.0], ['array', [1e-12, 1e-12, 3e-2, 3e-2]],
               ['array', [0.0, 0.0, 3e-3, 3e-3]], ['array', [1e-3, 0.0, 0.0, 1e-3]]],
@@ -323,7 +325,57 @@ def hist_fn(case):
     return r
 
 
+def bigwn_fn(case):
+    """A native grid of high-resolution size (more points than any power-of-two block a kernel might work in): every
+    wavenumber against the reference, so a point dropped or counted twice at a block boundary shows."""
+    from taurex.cache import OpacityCache
+    r = core.R(case)
+    fx.reset_caches()
+    nW, N = case['nW'], case['N']
+    wn = np.linspace(1000.0, 4000.0, nW)
+    g = fx.rng('c01big', nW)
+    tab = (10 ** g.uniform(-0.5, 0.5, size=(2, 2, nW))) * 1e-27 * 1e4
+    OpacityCache().add_opacity(fx.TinyOp('H2O', wn, fx.T_GRIDS[2], fx.P_GRIDS[2], tab, case['mode']))
+    contribs = ['abs'] + (['ray'] if case['ray'] else [])
+    m = fx.build_model({'kind': 'transmission', 'N': N, 'T': ['dec'], 'path': case['path'],
+                        'gases': [['H2O', ['const', 1e-4]]], 'contribs': contribs})
+    grid, depth, trans, _ = m.model()
+    r.eq(np.asarray(grid, float), wn, 'native-grid', 'bigwn/grid', rtol=0)
+    T = np.asarray(m.temperatureProfile, float)
+    P = np.asarray(m.pressureProfile, float)
+    dens = np.asarray(m.densityProfile, float)
+    zb = np.asarray(m.altitude_boundaries, float)
+    dz = np.asarray(m.deltaz, float)
+    segs, b, outer = rt.chord_segments(case['path'], m.planet.fullRadius, zb, dz)
+    chi = np.asarray(m.chemistry.get_gas_mix_profile('H2O'), float)
+    sig = np.array([opac.interp_opacity(tab, fx.T_GRIDS[2], fx.P_GRIDS[2], T[k], P[k], case['mode']) * chi[k] for k in range(N)])
+    if case['ray']:
+        from taurex.util.scattering import rayleigh_sigma_from_name
+        for gname in list(m.chemistry.activeGases) + list(m.chemistry.inactiveGases):
+            s_ = rayleigh_sigma_from_name(gname, wn)
+            if s_ is not None:
+                sig = sig + s_[None, :] * np.asarray(m.chemistry.get_gas_mix_profile(gname), float)[:, None]
+    T_ref = np.exp(-rt.slant_tau(sig, dens, segs, 1))
+    trans = np.asarray(trans, float)
+    if r.check(trans.shape == T_ref.shape, 'trans-shape', 'bigwn/shape', got=trans.shape):
+        bad = np.nonzero(~np.isclose(trans, T_ref, rtol=1e-9, atol=1e-15))
+        r.check(bad[0].size == 0, 'transmittance', 'bigwn/transmittance/%s' % case['path'],
+                first_bad_wavenumber_indices=sorted(set(bad[1].tolist()))[:8], count=int(bad[0].size))
+        d_ref = rt.transit_depth(T_ref, m.planet.fullRadius, m.star.radius, zb[:-1], dz)
+        r.eq(np.asarray(depth, float), d_ref, 'depth', 'bigwn/depth/%s' % case['path'], rtol=1e-9)
+    r.observe(np.asarray(depth, float)[::997])
+    r.nontrivial = True
+    return r
+
+
 def explore(ctx):
+    big = [{'nW': nW, 'N': 2, 'path': pth, 'mode': md, 'ray': ry} for nW, pth, md, ry in
+           ((65537, 'old', 'linear', False), (70001, 'new', 'exp', False), (131073, 'old', 'exp', True),
+            (140003, 'old', 'linear', False))]
+    if ctx.tier == 'thorough':
+        big += [{'nW': 262145, 'N': 3, 'path': 'old', 'mode': 'linear', 'ray': True},
+                {'nW': 200001, 'N': 2, 'path': 'new', 'mode': 'exp', 'ray': False}]
+    ctx.run_cases('bigwn_fn', big, phase='large-grid')
     if ctx.tier == 'quick':
         cases = core.product_cases(DIMS, core=['N', 'mag', 'contribs', 'path'], d=2)
         ctx.bounds.update(deviations=2, core='N x mag x contribs x path')
